@@ -30,7 +30,7 @@ Theorem C31_uri_decode_encode_any_set : forall ignore s, ignore 37 = false -> by
   uri_decode (uri_encode_set ignore s) = DOk s.
 Proof. exact uri_decode_encode_set. Qed.
 
-(* Uri::absolutePath() encodes with PathChars, which contains the percent sign: the round trip
+(* Uri::absolutePath() encodes with PathChars plus the query delimiter; PathChars contains the percent sign: the round trip
    fails for strings containing it (finding C31-path-percent) and holds for all others *)
 Theorem C31_uri_decode_encode_path_refuted :
   exists s, bytes_ok s /\ uri_decode (uri_encode_path s) <> DOk s.
@@ -64,12 +64,14 @@ Theorem C31_uri_encode_alphabet_any_set : forall ignore s, bytes_ok s ->
   exists items, uri_encode_set ignore s = concat items /\ Forall (pct_item ignore) items.
 Proof. exact uri_encode_set_alphabet. Qed.
 
-(* the ignore sets read off the real encoders are the RFC 3986 ones the source names *)
+(* the ignore sets read off the real encoders are the RFC 3986 ones the source names; the path
+   encoder of Uri::absolutePath() uses the RFC 3986 path characters plus the query delimiter (63),
+   since path_ holds path and query *)
 Theorem C31_uri_ignore_sets_are_rfc3986 : forall c, c < 256 ->
   mem_tbl bm_uri_unreserved_set c = rfc3986_unreserved c /\
   mem_tbl bm_uri_userinfo_set c = (rfc3986_unreserved c || rfc3986_sub_delims c || (c =? 58)) /\
   mem_tbl bm_uri_path_set c =
-    (rfc3986_unreserved c || rfc3986_sub_delims c || (c =? 58) || (c =? 64) || (c =? 47) || (c =? 37)).
+    (rfc3986_unreserved c || rfc3986_sub_delims c || (c =? 58) || (c =? 64) || (c =? 47) || (c =? 37) || (c =? 63)).
 Proof. exact uri_ignore_sets. Qed.
 
 (* and the regenerated per-byte tables are the hand-written encoder applied with those sets *)
